@@ -38,11 +38,9 @@ class KC(Indicator):
         )
 
     def _calculate_reading(self, index: int) -> float | dict | None:
-        if not all(
-            [
-                self.reading(f"{self.name}_EMA"),
-                self.reading(f"{self.name}_ATR"),
-            ]
+        if (
+            self.reading(f"{self.name}_EMA") is None
+            or self.reading(f"{self.name}_ATR") is None
         ):
             return {"lower": None, "band": None, "upper": None}
 
